@@ -59,6 +59,10 @@ CLAIMS = {
                   'real outcome exactly with math/big (same / truncated toward zero / coerce issue / changed).',
              technique='TLC-checked decision table + exhaustive replay of its rows on the real library with a math/big oracle, validated by TLC', ref='5 C18, 3.8',
              note='TLC contributes the enumeration, the table-level invariant and the row-by-row validation; the magnitudes are symbolic in TLA+ (32-bit integers) and membership of concrete values in the classes is trusted harness code.'),
+ 'C20': dict(engine='Tables', text='Every built-in test has its documented predicate written in TLA+ (spec/Tab_C20.tla) over small boundary domains; TLC enumerates every (test, parameter, subject) triple with its expected verdict '
+                  '(1271 rows), checks the table is a function, and recomputes the verdict of each of the ~3900 logged real executions (Parse, Validate, and negated through Not()).',
+             technique='TLC-enumerated predicate tables + exhaustive replay of every row on the real library, validated by TLC', ref='5 C20, 3.8',
+             note='Email/UUID/URL/Match on token alphabets only; concretisation of symbolic subjects is trusted harness code.'),
 }
 NA_REASON = 'check not built yet (work in progress; DESIGN.md section 11 gives the build order)'
 checks = []
@@ -73,7 +77,7 @@ for p in props:
 m = dict(version=1, setup_cmd='bin/setup',
          hooks=dict(guard='verif', enable='go build -tags verif (harness module replaces github.com/Oudwins/zog with /repo)',
                     baseline_off_cmd='cd /repo && go test -vet=off -count=1 ./...', source_commits=hook_commits, add_only=True),
-         engines=[dict(name='Tables', path='/verif/spec/Tab_C18.tla', serves_properties=['C18', 'C03', 'C04'], kind_free_text='finite decision tables in TLA+ (Tab_C03, Tab_C04, Tab_C18): TLC checks table invariants, emits rows, validates observed outcomes'),
+         engines=[dict(name='Tables', path='/verif/spec/Tab_C18.tla', serves_properties=['C18', 'C03', 'C04', 'C20'], kind_free_text='finite decision tables in TLA+ (Tab_C03, Tab_C04, Tab_C18): TLC checks table invariants, emits rows, validates observed outcomes'),
                   dict(name='ZogBuild', path='/verif/spec/ZogBuild.tla', serves_properties=['C16'], kind_free_text='TLA+ model of builder histories over Go slices with backing-array identity + trace validation'),
                   dict(name='ZogPools', path='/verif/spec/ZogPools.tla', serves_properties=['C07', 'C08'], kind_free_text='TLA+ model of pooled objects, call histories and goroutines (TLC) + history replay + TLC trace validation of pool events'),
                   dict(name='ZogExec', path='/verif/spec/ZogExec.tla', serves_properties=[p for p in props if p in CLAIMS and CLAIMS[p].get('engine', 'ZogExec') == 'ZogExec'],
